@@ -215,13 +215,15 @@ __CPROVER_assigns(PARSE_ASSIGNS(item, input_buffer));
 
 /* ------------------------------------------------------------------ cJSON_Delete, callee view for a single root node
  * (the enforced, per-node contract is proved in the unit cJSON_Delete; see c_tree section) */
+cJSON *g_del_arg; size_t g_del_calls;   /* ghost log of cJSON_Delete calls (callee view) */
 #ifndef VF_ENF_cJSON_Delete
 CJSON_PUBLIC(void) cJSON_Delete(cJSON *item)
 __CPROVER_requires(item == NULL || __CPROVER_rw_ok(item, sizeof(cJSON)))
 __CPROVER_requires(HOOKS_OK(global_hooks))
 __CPROVER_ensures(g_live == ((__CPROVER_old(g_live) == (void*)item) ? NULL : __CPROVER_old(g_live)))
 __CPROVER_ensures(C14_POST(global_hooks))
-__CPROVER_assigns(GHOST_ALLOC)
+__CPROVER_ensures(g_del_arg == item && g_del_calls == __CPROVER_old(g_del_calls) + 1)
+__CPROVER_assigns(GHOST_ALLOC, g_del_arg, g_del_calls)
 __CPROVER_frees(item != NULL: item);
 #endif
 
@@ -302,5 +304,6 @@ __CPROVER_assigns();
 
 
 #include "c_print.h"
+#include "c_tree.h"
 
 #endif
